@@ -5,7 +5,7 @@ import Momtrop.Props.C08
 import Momtrop.Props.C10
 import Momtrop.Props.C11
 import Momtrop.Props.C12
-import Momtrop.Props.C13
+import Momtrop.Props.C13BM
 import Momtrop.Props.C14
 /-!
 # C01 — the estimator is unbiased (partial: algebraic reduction)
@@ -16,10 +16,10 @@ parametrisation nor the measure of the sector sample is available in Mathlib, so
 is **not** proved. What is proved is that the code computes every algebraic ingredient of the standard
 derivation; the three classical theorems that turn them into the integral identity are cited
 (Schwinger parametrisation + Gaussian integral; Borinsky's tropical-sampling theorem for the sector
-density `U_tr^{-D/2} V_tr^{-dod}/I_tr`; inverse-CDF and Box–Muller). `reduction` collects the ingredients.
+density `U_tr^{-D/2} V_tr^{-dod}/I_tr`; inverse-CDF). Box–Muller is proved (`C13.boxMuller_law`). `reduction` collects the ingredients.
 -/
 namespace Momtrop.C01
-open Momtrop Scalar Matrix
+open Momtrop Scalar Matrix MeasureTheory
 
 variable {E L : ℕ}
 
@@ -52,6 +52,9 @@ structure Reduction : Prop where
       (scalingOf T uTr vTr ^ loops * uTr) ^ T.halfD * (scalingOf T uTr vTr * vTr) ^ T.dod = 1
   /-- (iv) the Gaussian pair has squared radius `−2 ln a` -/
   gauss : ∀ (a b : ℝ), 0 < a → a ≤ 1 → (boxMuller a b).1 ^ 2 + (boxMuller a b).2 ^ 2 = -2 * Real.log a
+  /-- (iv') Box–Muller theorem: a uniform pair of coordinates gives two independent standard normals -/
+  gaussLaw : ∀ (f : ℝ × ℝ → ENNReal), Measurable f →
+      ∫⁻ p in Set.Ioo (0:ℝ) 1 ×ˢ Set.Ioo (0:ℝ) 1, f (boxMuller p.1 p.2) = ∫⁻ z, f z * ENNReal.ofReal (C13.gauss2 z)
   /-- (v) at the returned momenta the weighted propagator sum is `c²|q|² + (pᵀXp − uᵀL⁻¹u)` -/
   momenta : ∀ {E L : ℕ} (S : Matrix (Fin E) (Fin L) ℝ) (x p : Fin E → ℝ) (q : Fin L → ℝ) (c : ℝ)
       (Li Qti : Matrix (Fin L) (Fin L) ℝ), lMat S x * Li = 1 → Qtiᵀ * lMat S x * Qti = 1 →
@@ -71,6 +74,7 @@ theorem reduction : Reduction where
   probs := fun omega n g hg h0 hJ => C04.edge_probs_sum_one omega n g hg h0 hJ
   rescale := fun T uTr vTr loops h1 h2 h3 h4 h5 => C07.rescaling_normalises T uTr vTr loops h1 h2 h3 h4 h5
   gauss := fun a b h0 h1 => C13.box_muller_radius a b h0 h1
+  gaussLaw := fun f hf => C13.boxMuller_law_model f hf
   momenta := fun S x p q c Li Qti h1 h2 => C10.propSum_at_sample S x p q c Li Qti h1 h2
   jac := fun Lm Qti c h => det_momentum_map Lm Qti c h
   gauge := fun halfD dod s U V Utr Vtr L h1 h2 h3 h4 h5 h6 => C11.gauge_invariant halfD dod s U V Utr Vtr L h1 h2 h3 h4 h5 h6
